@@ -59,3 +59,7 @@ Lemma firstn_app_exact {A} (l r : list A) : firstn (length l) (l ++ r) = l.
 Proof. rewrite firstn_app, Nat.sub_diag, firstn_all. cbn. apply app_nil_r. Qed.
 Lemma skipn_app_exact {A} (l r : list A) : skipn (length l) (l ++ r) = r.
 Proof. rewrite skipn_app, Nat.sub_diag, skipn_all. reflexivity. Qed.
+Lemma Forall_firstn' {A} (P : A -> Prop) n (l : list A) : Forall P l -> Forall P (firstn n l).
+Proof. intro H. rewrite <- (firstn_skipn n l) in H. apply Forall_app in H. apply H. Qed.
+Lemma Forall_skipn' {A} (P : A -> Prop) n (l : list A) : Forall P l -> Forall P (skipn n l).
+Proof. intro H. rewrite <- (firstn_skipn n l) in H. apply Forall_app in H. apply H. Qed.
